@@ -560,7 +560,7 @@ class Evaluator:
         if kind == 'const':
             _, m, n = r
             entries = m.assigns[n]
-            if len(entries) != 1 or entries[0][1] is None:
+            if len(entries) != 1 or entries[0][1] is None or n in m.global_writes():
                 return SymObj(f'{m.name.split(".")[-1]}.{n}')       # reassigned global: opaque
             val = entries[0][1]
             key = ('const', m.name, n)
@@ -1414,10 +1414,32 @@ class Evaluator:
                 return self.exec_block(list(s.body) + list(s.orelse) + list(s.finalbody) + rest, st, ctx)
             if isinstance(s, ast.With):
                 return self.exec_block(list(s.body) + rest, st, ctx)
-            if isinstance(s, (ast.Global, ast.Nonlocal, ast.Import, ast.ImportFrom)):
+            if isinstance(s, (ast.Global, ast.Nonlocal)):
+                continue
+            if isinstance(s, (ast.Import, ast.ImportFrom)):
+                self.local_import(s, st, ctx)
                 continue
             raise Undecided(f'statement {type(s).__name__} at {ctx.module.path}:{s.lineno}')
         return Leaf('fall', None, st)
+
+    def local_import(self, s, st: State, ctx: Ctx) -> None:
+        if isinstance(s, ast.Import):
+            for a in s.names:
+                name = a.asname or a.name.split('.')[0]
+                target = a.name if a.asname else a.name.split('.')[0]
+                st.env[name] = ModRef(self.prog.modules[target]) if target in self.prog.modules else ExtRef(target, None)
+            return
+        mod = ctx.module._abs_module(s.level, s.module)
+        for a in s.names:
+            name = a.asname or a.name
+            if mod in self.prog.modules:
+                sub = f'{mod}.{a.name}'
+                if sub in self.prog.modules:
+                    st.env[name] = ModRef(self.prog.modules[sub])
+                else:
+                    st.env[name] = self.global_name(self.prog.modules[mod], a.name, ctx)
+            else:
+                st.env[name] = ExtRef(mod, a.name)
 
     def split_on_raise(self, r: AV, s, rest, st: State, ctx: Ctx):
         if isinstance(r, Cond):
